@@ -2,7 +2,7 @@
    This file contains only statements closed by [exact <lemma>] and their assumptions. *)
 From Coq Require Import ZArith Reals List.
 From FF Require Import Base.Ops Inst.RInst Base.RAlg Model.Numeric Model.Consts Model.Atomic Model.Concat Model.Tie.C03
-                       Proofs.AtomicAlg Proofs.Atomic Proofs.AtomicPC Proofs.Concat Proofs.ConcatRows Proofs.ConcatInst
+                       Proofs.AtomicAlg Proofs.Atomic Proofs.AtomicPC Proofs.EigIndep Proofs.Concat Proofs.ConcatRows Proofs.ConcatInst
                        Inst.IInst Inst.Param Inst.EnclosureC03.
 Import ListNotations.
 
@@ -34,6 +34,35 @@ Print Assumptions C03_atomic_rule_pauli.
 (* ... and the well-formedness hypothesis for a concrete pair of pieces with non-commuting segments *)
 Example C03_atomic_rule_hyps_satisfiable : Forall (wf_piece ex_ns) [ex_p1; ex_p2].
 Proof. exact atomic_rule_hyps_satisfiable. Qed.
+
+(* Independence of the eigen-decomposition oracle.  For two unitary decompositions of the same Hermitian matrix per
+   segment (V diag(ev) V^dagger = V' diag(ev') V'^dagger; degenerate spectra, other orderings, other phases) the
+   segment propagators, the total propagator and every entry of the from-scratch control matrix coincide ... *)
+Theorem C03_cm_eig_independent :
+  forall d thr om bs ns (p q : piece (T:=R)) a k o,
+    (a < length ns)%nat -> (k < length bs)%nat -> (o < length om)%nat ->
+    same_segs d (pc_evs p) (pc_Vs p) (pc_evs q) (pc_Vs q) -> pc_dts q = pc_dts p -> pc_nc q = pc_nc p ->
+    a3get RO (piece_cm RO d thr om bs ns p) a k o = a3get RO (piece_cm RO d thr om bs ns q) a k o.
+Proof. exact cm_eig_independent. Qed.
+Theorem C03_total_eig_independent :
+  forall d evs Vs evs' Vs', same_segs d evs Vs evs' Vs' ->
+  forall dts Q Q', feq d (toF Q) (toF Q') -> feq d (toF (cum_last d evs Vs dts Q)) (toF (cum_last d evs' Vs' dts Q')).
+Proof. exact total_eig_independent. Qed.
+(* ... hence the atomic rule holds for the concatenated pulse's OWN eigh result q, not only for the concatenation
+   of the inputs' spectral data *)
+Theorem C03_atomic_rule_own_eig :
+  forall d thr om bs ns (ps : list (piece (T:=R))) (q : piece (T:=R)) a k o,
+    (forall l, (l < length bs)%nat -> fherm d (Cf bs l)) ->
+    (forall X : fmat, feq d X (flin (length bs) (fun l => ftr d (fmul d (Cf bs l) X)) (Cf bs))) ->
+    Forall (wf_piece ns) ps ->
+    same_segs d (pc_evs (cat_piece (length ns) ps)) (pc_Vs (cat_piece (length ns) ps)) (pc_evs q) (pc_Vs q) ->
+    pc_dts q = pc_dts (cat_piece (length ns) ps) -> pc_nc q = pc_nc (cat_piece (length ns) ps) ->
+    (a < length ns)%nat -> (k < length bs)%nat -> (o < length om)%nat ->
+    a3get RO (piece_cm RO d thr om bs ns q) a k o = a3get RO (concat_atomic RO d thr om bs ns ps) a k o.
+Proof. exact atomic_rule_own_eig. Qed.
+Print Assumptions C03_atomic_rule_own_eig.
+Example C03_same_H_satisfiable : same_H 2 [1; 1]%R exI [1; 1]%R exRot.
+Proof. exact same_H_satisfiable. Qed.
 
 (* regrouping (associativity, `@`, slicing a pulse and re-concatenating the pieces): concatenating a
    sub-list first gives the same control matrix *)
@@ -164,15 +193,17 @@ Proof. exact (bisect_is_pulse_position oper coef). Qed.
      - raises one of the two documented ValueErrors, only when no frequencies were supplied and the cached grids
        are unknown or inconsistent, or
      - returns a pulse whose frequency-dependent attributes are all for the grid that was used (supplied, or
-       cached on an input) -- never a filter function without known frequencies -- and which has the pulse
-       correlation filter function whenever calc_pulse_correlation_FF = True.
+       cached on an input) -- never a filter function without known frequencies -- which has the pulse
+       correlation filter function (also the generalized one for which = 'generalized') whenever
+       calc_pulse_correlation_FF = True, and the control matrix and filter function whenever calc_filter_function = True.
    The IndexError / shape-error outcomes of the faithful row bookkeeping are excluded by C03_masks_consistent. *)
 Theorem C03_decision_sound :
   forall (ps : list (pulse oper coef)) cs o, Forall (wf_pulse oper coef) ps ->
   match concatenate_outcome oper coef oeqb ceqb czero ps cs o with
   | ORaise e => incompatible e \/
                 (e = EForced \/ e = ENoFreqPC) /\ o_omega o = None /\ all_equal_nat (grids_consulted cs) = false
-  | ORet r => (freq_dependent r = true -> grid_known cs o r) /\ (o_pc o = true -> t_pc r = true)
+  | ORet r => (freq_dependent r = true -> grid_known cs o r) /\ (o_pc o = true -> t_pc r = true) /\
+              (o_pc o = true -> o_gen o = true -> t_pcgen r = true) /\ (o_ff o = TTrue -> t_ff r = true /\ t_cm r = true)
   | OCopy => True
   end.
 Proof. exact (decision_sound oper coef oeqb ceqb czero oeqb_spec). Qed.
